@@ -86,3 +86,51 @@ def _bridge_trouble():
         loop.run_until_complete(main())
     finally:
         loop.close()
+
+
+def use() -> None:
+    """Ordinary, SUCCESSFUL use of the library (nothing here fails): bridges on the well-known and on other ports hear valid
+    broadcasts of every family on every one of them, clients of both types connect, are refused once, connect again and run
+    an operation.  The catalogue (types, class guards, port tables) must be the same before and after."""
+    from . import vnet
+    from .udpdrive import make_datagram
+    from aioswitcher.api import SwitcherType1Api, SwitcherType2Api
+    from aioswitcher.bridge import SwitcherBridge
+    net = vnet.VNet()
+    loop = vnet.VLoop(net)
+    seen = []
+    common = {"t": "bc", "seed": 7, "id": [1, 2, 3], "key": 1, "name": [97, 98], "ip": [1, 2, 3, 4], "mac": [1] * 6}
+    fams = [dict(common, fam="heater", code=[3, 23], state=1, watts=5, remaining=5, auto=3600), dict(common, fam="plug", code=[1, 168], state=0, watts=0),
+            dict(common, fam="thermo", code=[14, 1], state=1, mode=4, target=24, fan=1, swing=0, temp10=250, remote=list(b"ELEC7022")),
+            dict(common, fam="shutter", code=[12, 1], position=5, direction=[0, 0])]
+
+    async def main():
+        for ports in ([20002, 20003], [10002, 10003], [34567, 45678], None):
+            b = SwitcherBridge(seen.append, ports) if ports is not None else SwitcherBridge(seen.append)
+            await b.start()
+            for p in (ports or [20002, 10002, 20003, 10003]):
+                for d in fams:
+                    net.send_udp(loop, p, make_datagram(d))
+                    await vnet.settle(2)
+            await b.stop()
+            await vnet.settle(3)
+        net.on_write_hook = lambda conn, data: conn.loop.call_soon(conn.feed, bytes(range(110)))
+        for cls, port, op in ((SwitcherType1Api, 9957, "get_state"), (SwitcherType2Api, 10000, "get_shutter_state")):
+            api = cls("10.7.7.7", "ab1234", "18")
+            for accept in (False, True):
+                for prt in (9957, 10000):
+                    net.listen("10.7.7.7", prt, accept)
+                try:
+                    await api.connect()
+                    await getattr(api, op)()
+                except Exception:  # noqa: BLE001 - a refusal, or whatever the operation makes of the canned reply
+                    pass
+            await api.disconnect()
+    with warnings.catch_warnings():
+        warnings.simplefilter("ignore")
+        try:
+            loop.run_until_complete(main())
+        except Exception:  # noqa: BLE001
+            pass
+        finally:
+            loop.close()
